@@ -90,6 +90,16 @@ def generic_event(pp, tid, rnd):
         v = rnd.choice([v + "|INFO:note", "INFO:first|" + v, v + "|Obs:+1.0"])
     mult = rnd.choice([1, 1, 2, 3, 7])
     mono = rnd.random() < 0.6
+    if rnd.random() < 0.3:
+        # other values were resolved (or refused) earlier in the process: glycan texts that need backtracking, that are
+        # unreadable from some point on, formulas with unknown symbols. What THIS value resolves to is its own business.
+        for _ in range(rnd.randint(1, 3)):
+            junk = rnd.choice(["Glycan:Neu5Acetyl2", "Glycan:HexNAc2Foo", "Glycan:Hex2F", "Glycan:HexNAc2Hex3Fu", "Glycan:NeuAcx",
+                               "Glycan:HexHexNA", "Glycan:dHex2Pentose1", "Glycan:Hex" + "x" * rnd.randint(1, 9),
+                               "Glycan:HexNAc" + str(rnd.randint(1, 12)) + "Q" * rnd.randint(1, 9),
+                               "Formula:C2Xx3", "Formula:C2H", "U:NoSuchName", "Glycan:"])
+            call(lambda: pp.mod_mass(junk, rnd.random() < 0.5))
+            call(lambda: pp.mod_comp(junk))
     o, m = call(lambda: pp.mod_mass(Mod(v, mult), mono))
     return {"tid": tid, "k": "generic", "v": "s:" + v, "mult": mult, "mono": mono, "out": o, "res": fix(m) if o == "ret" else [0, 0]}
 
